@@ -64,6 +64,7 @@ class Program:
         self.enum_fields = {}
         self.struct_fields = {}
         self.struct_defaults = {}
+        self.struct_field_types = {}
         self._scan_sources(repo)
         self.layouts = layouts or {}
         self._impl_cache = {}
@@ -110,13 +111,18 @@ class Program:
                 self.struct_defaults.setdefault(m.group(1), dfl)
         for m in re.finditer(r'\bstruct\s+(\w+)\s*(?:<[^>{(;]*>)?\s*(?:where[^{]*)?\{', txt):
             body = self._balanced(txt, m.end() - 1)
-            names = []
+            names = []; types = []
             for part in split_top(body):
                 part = re.sub(r'#\[[^\]]*\]', '', part).strip()
-                fm = re.match(r'(?:pub(?:\([^)]*\))?\s+)?(\w+)\s*:', part)
+                fm = re.match(r'(?:pub(?:\([^)]*\))?\s+)?(\w+)\s*:\s*(.+)$', part, flags=re.S)
                 if fm:
-                    names.append(fm.group(1))
+                    names.append(fm.group(1)); types.append(' '.join(fm.group(2).split()))
             self.struct_fields.setdefault(m.group(1), names)
+            self.struct_field_types.setdefault(m.group(1), types)
+        for m in re.finditer(r'\bstruct\s+(\w+)\s*\(([^;{]*)\)\s*;', txt):
+            tys = [re.sub(r'^pub(\([^)]*\))?\s+', '', x.strip()) for x in split_top(m.group(2))]
+            self.struct_fields.setdefault(m.group(1), [str(i) for i in range(len(tys))])
+            self.struct_field_types.setdefault(m.group(1), tys)
 
     @staticmethod
     def _balanced(txt, i):
